@@ -97,6 +97,7 @@ type crashArg struct {
 	} `json:"img"`
 	K   string  `json:"k"`
 	S   int     `json:"s"`
+	Fex []bool  `json:"fex"` // which files exist at the moment of the crash
 	Pre [][]int `json:"pre"`
 }
 
@@ -110,6 +111,9 @@ func (s *StoreSession) materialise(a crashArg) (string, error) {
 	tornSeen := false
 	for i, im := range a.Img {
 		seq := i + 1
+		if i < len(a.Fex) && !a.Fex[i] {
+			continue // not created yet when the crash happens
+		}
 		exists, recs := s.records(seq)
 		if !exists {
 			if im.N > 0 {
@@ -298,8 +302,10 @@ func (s *StoreSession) checkFullShape() (out []Mismatch) {
 }
 
 // copyAndReopen copies the directory as it is now and checks that the copy
-// opens and holds exactly want (C06: no good file replaced or lost).
-func (s *StoreSession) copyAndReopen(want []int, what string) (out []Mismatch) {
+// opens and holds want -- or, when later prefixes are given, the reference
+// after one of them (C06: no good file replaced or lost; a reopen is never
+// older than what the store exposed).
+func (s *StoreSession) copyAndReopen(want []int, what string, later ...[]int) (out []Mismatch) {
 	dir, err := ioutil.TempDir(scratchBase(), "copy")
 	if err != nil {
 		return nil
@@ -315,13 +321,26 @@ func (s *StoreSession) copyAndReopen(want []int, what string) (out []Mismatch) {
 	err = safely(func() error {
 		st, err := moss.OpenStore(dir, moss.StoreOptions{KeepFiles: true})
 		if err != nil {
-			out = append(out, Mismatch{What: what + ".open", Got: err.Error(), Want: "opens"})
+			mm := Mismatch{What: what + ".open", Got: err.Error(), Want: "opens"}
+			if s.nothingCommitted {
+				mm.Note = "nothing-committed"
+			}
+			out = append(out, mm)
 			return nil
 		}
 		defer st.Close()
 		ss, _ := st.Snapshot()
 		if ss != nil {
-			out = append(out, s.checkSnap(ss, want, what)...)
+			mm := s.checkSnap(ss, want, what)
+			for _, w := range later {
+				if len(mm) == 0 {
+					break
+				}
+				if len(s.checkSnap(ss, w, what)) == 0 {
+					mm = nil
+				}
+			}
+			out = append(out, mm...)
 			ss.Close()
 		}
 		return nil
@@ -351,7 +370,10 @@ func (s *StoreSession) roCheck(from int) (out []Mismatch) {
 	}
 	s.flog.mu.Unlock()
 	s.sched.mu.Lock()
-	rem := append([]string(nil), s.sched.Removed...)
+	if s.roRemovedFrom < 0 {
+		s.roRemovedFrom = 0
+	}
+	rem := append([]string(nil), s.sched.Removed[s.roRemovedFrom:]...)
 	s.sched.mu.Unlock()
 	for _, r := range rem {
 		if strings.HasPrefix(r, s.dir) {
@@ -380,6 +402,7 @@ func ReplayStore(id int, d StoreDims, steps []StoreStep) (res Result) {
 	for i, st := range steps {
 		sr := StepResult{Step: i, Act: st.Act}
 		exp := st.Exp
+		s.nothingCommitted = exp.File == 0 && exp.Upto == 0
 		var err error
 		switch st.Act {
 		case "NewBatch":
@@ -455,8 +478,10 @@ func ReplayStore(id int, d StoreDims, steps []StoreStep) (res Result) {
 			if a.Kind == "full" {
 				sr.Mismatches = append(sr.Mismatches, s.checkFullShape()...)
 			}
-			if okf, got := s.awaitFiles(exp.Ex, 3*time.Second); !okf {
-				sr.Mismatches = append(sr.Mismatches, Mismatch{What: "files", Got: fmt.Sprint(got), Want: fmt.Sprint(exp.Ex)})
+			if d.CheckFiles {
+				if okf, got := s.awaitFiles(exp.Keep, 3*time.Second); !okf {
+					sr.Mismatches = append(sr.Mismatches, Mismatch{What: "files", Got: fmt.Sprint(got), Want: fmt.Sprint(exp.Keep)})
+				}
 			}
 		case "IOFail":
 			var ok bool
@@ -483,7 +508,15 @@ func ReplayStore(id int, d StoreDims, steps []StoreStep) (res Result) {
 			}
 			sr.Mismatches = append(sr.Mismatches, s.checkStore(exp.St, "fault.store")...)
 			sr.Mismatches = append(sr.Mismatches, s.checkColl(exp.Co, "fault.coll")...)
-			sr.Mismatches = append(sr.Mismatches, s.copyAndReopen(exp.St, "fault.reopen")...)
+			var fa struct {
+				Pre [][]int `json:"pre"`
+			}
+			json.Unmarshal(st.Arg, &fa)
+			var later [][]int
+			if exp.Upto+1 < len(fa.Pre) {
+				later = fa.Pre[exp.Upto+1:]
+			}
+			sr.Mismatches = append(sr.Mismatches, s.copyAndReopen(exp.St, "fault.reopen", later...)...)
 			s.fault = nil
 		case "TakeSnap", "Previous", "CloseSnap", "Revert":
 			var a struct {
@@ -560,9 +593,9 @@ func ReplayStore(id int, d StoreDims, steps []StoreStep) (res Result) {
 			}
 			s.store = nil
 			s.pend = false
-			if !d.KeepFiles {
-				if okf, got := s.awaitFiles(exp.Ex, 3*time.Second); !okf {
-					sr.Mismatches = append(sr.Mismatches, Mismatch{What: "files.afterclose", Got: fmt.Sprint(got), Want: fmt.Sprint(exp.Ex)})
+			if !d.KeepFiles && d.CheckFiles {
+				if okf, got := s.awaitFiles(exp.Keep, 3*time.Second); !okf {
+					sr.Mismatches = append(sr.Mismatches, Mismatch{What: "files.afterclose", Got: fmt.Sprint(got), Want: fmt.Sprint(exp.Keep)})
 				}
 			}
 		case "Reopen":
@@ -571,18 +604,27 @@ func ReplayStore(id int, d StoreDims, steps []StoreStep) (res Result) {
 			}
 			json.Unmarshal(st.Arg, &a)
 			if a.Ro {
+				// let the asynchronous removals of the previous incarnation finish first
+				s.awaitFiles(exp.Keep, 3*time.Second)
 				if d.ROJunk {
 					ioutil.WriteFile(filepath.Join(s.dir, "junk.txt"), []byte("junk"), 0600)
-					ioutil.WriteFile(filepath.Join(s.dir, moss.FormatFName(int64(len(exp.Ex)+5))), []byte("not a moss file"), 0600)
-					ioutil.WriteFile(filepath.Join(s.dir, moss.FormatFName(0)), nil, 0600)
+					if exp.File != 0 { // next to a real data file: an incomplete newer file and an empty older one
+						ioutil.WriteFile(filepath.Join(s.dir, moss.FormatFName(int64(len(exp.Ex)+5))), []byte("not a moss file"), 0600)
+						ioutil.WriteFile(filepath.Join(s.dir, moss.FormatFName(0)), nil, 0600)
+					}
 				}
 				s.roHash = s.dirHash()
 				s.flog.mu.Lock()
 				roFrom = len(s.flog.Ops)
 				s.flog.mu.Unlock()
+				s.roRemovedFrom = -1 // set once the new scheduler exists
 			}
 			if e := safely(func() error { return s.open(a.Ro) }); e != nil {
-				sr.Mismatches = append(sr.Mismatches, Mismatch{What: "reopen.open", Got: e.Error(), Want: "opens"})
+				mm := Mismatch{What: "reopen.open", Got: e.Error(), Want: "opens"}
+				if !exp.Open {
+					mm.Note = "model-predicted-failure"
+				}
+				sr.Mismatches = append(sr.Mismatches, mm)
 				err = errAbort
 				break
 			}
@@ -638,7 +680,11 @@ func ReplayStore(id int, d StoreDims, steps []StoreStep) (res Result) {
 			s.flog.Fail = s.failHook
 			s.pend, s.inflight = false, ""
 			if e := safely(func() error { return s.open(false) }); e != nil {
-				sr.Mismatches = append(sr.Mismatches, Mismatch{What: "crash.open", Got: e.Error(), Want: fmt.Sprintf("opens with the content after batch %d", exp.Upto)})
+				mm := Mismatch{What: "crash.open", Got: e.Error(), Want: fmt.Sprintf("opens with the content after batch %d", exp.Upto)}
+				if !exp.Open {
+					mm.Note = "model-predicted-failure" // a named deviation of the specification predicts exactly this failure
+				}
+				sr.Mismatches = append(sr.Mismatches, mm)
 				err = errAbort
 				break
 			}
